@@ -12,7 +12,8 @@
 (*           what is replayed into the implementation                       *)
 EXTENDS Integers, Sequences, FiniteSets, TLC, Json
 
-CONSTANT Depth          \* behaviours of exactly this many API events are emitted
+CONSTANTS Depth,        \* behaviours of exactly this many API events are emitted
+          DebugOn       \* FALSE models `python -O`: the switch then reads False whatever was assigned (the __debug__ coupling)
 
 (* values a user may assign: only the Python singletons True / False are valid *)
 AssignValues == {"True", "False", "int0", "int1", "None", "str_yes", "np_true", "np_false",
@@ -41,20 +42,22 @@ vars == <<switch, out, hist>>
 
 Init == switch = TRUE /\ out = "none" /\ hist = <<>>
 
+(* what xfab.CHECKS.activated reads: the stored flag and not running under -O *)
+Active(sw) == sw /\ DebugOn
 Assign(v) == /\ IF v \in ValidAssign
                   THEN switch' = (v = "True") /\ out' = "ok"
                   ELSE switch' = switch /\ out' = "ValueError"
-             /\ hist' = Append(hist, [ev |-> "assign", v |-> v, out |-> out', sw |-> switch'])
+             /\ hist' = Append(hist, [ev |-> "assign", v |-> v, out |-> out', sw |-> Active(switch')])
 
-Call(e) == /\ out' = IF switch /\ e.c \in Rejects(e.f) THEN "CheckError"
+Call(e) == /\ out' = IF Active(switch) /\ e.c \in Rejects(e.f) THEN "CheckError"
                      ELSE IF e.c \in ValidClasses THEN "returns" ELSE "unchecked"
            /\ switch' = switch
-           /\ hist' = Append(hist, [ev |-> "call", m |-> e.m, f |-> e.f, c |-> e.c, out |-> out', sw |-> switch])
+           /\ hist' = Append(hist, [ev |-> "call", m |-> e.m, f |-> e.f, c |-> e.c, out |-> out', sw |-> Active(switch)])
 
 (* a second, private instance of the switch class is created and assigned: the package-wide switch is not affected *)
 OtherInstance(v) == /\ switch' = switch
                     /\ out' = IF v \in ValidAssign THEN "ok" ELSE "ValueError"
-                    /\ hist' = Append(hist, [ev |-> "other_instance", v |-> v, out |-> out', sw |-> switch])
+                    /\ hist' = Append(hist, [ev |-> "other_instance", v |-> v, out |-> out', sw |-> Active(switch)])
 
 Next == /\ Len(hist) < Depth
         /\ \/ \E v \in AssignValues : Assign(v)
@@ -70,6 +73,8 @@ LastValid(h) == IF h = <<>> THEN TRUE
                        ELSE LastValid(SubSeq(h, 1, Len(h) - 1))
 (* after any sequence of assignments the state is the last valid value *)
 SwitchIsLastValid == switch = LastValid(hist)
+(* under -O nothing is ever rejected by a check and the switch always reads False *)
+OptimisedMeansOff == (~DebugOn) => \A i \in 1..Len(hist) : ~hist[i].sw /\ hist[i].out # "CheckError"
 (* a valid input is never rejected, whatever the switch *)
 NeverRejectsValid == \A i \in 1..Len(hist) : (hist[i].ev = "call" /\ hist[i].c \in ValidClasses) => hist[i].out = "returns"
 (* with the switch off nothing is rejected by a check *)
